@@ -1,1 +1,74 @@
-(* placeholder *)
+(* Non-vacuity for the C17 theorems, and the witness for the imb_get_errno fall-back.
+   Tests (vm_compute on concrete worlds), not theorems. *)
+From Coq Require Import String.
+From Coq Require Import ZArith List Bool.
+From IMB Require Import Gen.GenConsts Gen.GenGlobals Gen.GenStrerror Mgr.Ring Mgr.Errno Mgr.Globals
+                        Proofs.GlobalsProofs.
+Import ListNotations.
+Local Open Scope Z_scope.
+
+Definition SZ := SIZEOF_IMB_JOB.
+Definition NJ := IMB_MAX_JOBS.
+Definition MAXB := IMB_MAX_BURST_SIZE.
+
+Definition ring_empty : st := mkst (-1) 0 (fun _ => 0) (fun _ => 0) 0.
+Definition cpu0 : list Z := [1; 2; 3; 4; 5; 6; 7; 8; 9; 10; 11; 12].
+Definition feat0 (l : list Z) : Z := fold_right Z.add 0 l.
+Definition sess0 (c : Z) : Z := c * 2654435761 mod 2 ^ 32.
+Definition w0 : world := mkworld (mkglob (fun _ => 0) [] 1) (fun _ => mkms ring_empty 0).
+
+(* the current tree: one process-wide mirror *)
+Example mirror_is_process_wide : mirror_is_thread_local = false. Proof. reflexivity. Qed.
+Definition shared (i : nat) : Z := 0.
+Definition per_thread (i : nat) : Z := Z.of_nat i.
+
+Definition run cell l := wrun SZ NJ MAXB cell cpu0 feat0 sess0 ring_empty w0 l.
+
+(* A = manager 0, B = manager 1.  A succeeds; B fails; then imb_get_errno(A). *)
+Definition witness : list (nat * wop) :=
+  [ (0%nat, WRing QueueSize); (1%nat, WRing (GetNextBurst false 1000)); (0%nat, WGetErrno) ].
+Example witness_shared_mirror :
+  map snd (snd (run shared witness)) = [ORing (ONum 0) 0; ORing (OSlots []) IMB_ERR_BURST_SIZE; OErrno IMB_ERR_BURST_SIZE].
+Proof. vm_compute. reflexivity. Qed.
+Example witness_solo :
+  map snd (snd (run shared (only 0%nat witness))) = [ORing (ONum 0) 0; OErrno 0].
+Proof. vm_compute. reflexivity. Qed.
+(* the per-manager FIELD is unaffected, as mgr_noninterference says *)
+Example witness_field_clean : errno (m_ring (mgrs (fst (run shared witness)) 0%nat)) = 0. Proof. vm_compute. reflexivity. Qed.
+(* with one mirror cell per thread (proposed fix) the witness disappears *)
+Example witness_thread_local :
+  map snd (snd (run per_thread witness)) = [ORing (ONum 0) 0; ORing (OSlots []) IMB_ERR_BURST_SIZE; OErrno 0].
+Proof. vm_compute. reflexivity. Qed.
+
+(* a longer interleaving of three managers with jobs, a refused burst, a failing direct call made
+   through manager 2, sessions and an init: hypotheses of the theorems hold trivially (there are
+   none besides agreement on i); show the projections really are non-trivial and equal *)
+Definition l3 : list (nat * wop) :=
+  [ (2%nat, WInit); (0%nat, WRing (Submit true None 7 [])); (1%nat, WSetSession);
+    (1%nat, WRing (Submit true (Some IMB_ERR_JOB_NULL_SRC) 8 []));
+    (2%nat, WDirect (direct_api IMB_ERR_NULL_KEY)); (0%nat, WSetSession);
+    (0%nat, WRing (Flush [0])); (1%nat, WRing (Flush [])); (2%nat, WGetErrno);
+    (1%nat, WRing (SubmitBurst true 1 None [] [])); (0%nat, WRing QueueSize); (1%nat, WGetErrno) ].
+Example l3_proj1 :
+  outs_of 1%nat (snd (run shared l3)) = outs_of 1%nat (snd (run shared (only 1%nat l3))).
+Proof. vm_compute. reflexivity. Qed.
+Example l3_proj1_nontrivial :
+  outs_of 1%nat (snd (run shared l3))
+  = [OSession 0 0; ORing (OJob (Some (0, 8, IMB_STATUS_INVALID_ARGS))) IMB_ERR_JOB_NULL_SRC;
+     ORing (OJob None) 0; ORing (OReject None) IMB_ERR_NULL_BURST; OErrno 0].
+Proof. vm_compute. reflexivity. Qed.
+(* the two erased observations do differ between together and alone *)
+Example l3_session_ids_differ :
+  filter (fun o => match o with OSession _ _ => true | _ => false end) (map snd (only 0%nat (snd (run shared l3))))
+  <> filter (fun o => match o with OSession _ _ => true | _ => false end) (map snd (snd (run shared (only 0%nat l3)))).
+Proof. vm_compute. discriminate. Qed.
+Example l3_counter : g_counter (glob (fst (run shared l3))) = 3. Proof. vm_compute. reflexivity. Qed.
+
+(* CPUID cache: two threads refreshing and reading concurrently, arbitrary interleaving *)
+Definition cpuw0 (k : nat) : Z := Z.of_nat (100 + k).
+Definition evs0 : list cev := [CW 1 0; CW 2 0; CW 1 1; CR 1 0; CW 2 1; CR 2 1; CR 1 1; CW 2 2; CW 1 2; CR 2 0; CR 1 2; CR 2 2].
+Example evs0_wf : reads_follow_own_writes [] evs0 = true. Proof. reflexivity. Qed.
+Example evs0_reads : map snd (crun cpuw0 (fun _ => 0) evs0) = [100; 101; 101; 100; 102; 102]. Proof. reflexivity. Qed.
+
+(* the generated table is not empty and contains what the model talks about *)
+Example globals_listed : map gs_name (filter (fun g => negb (gs_size g =? 0)) writable_syms) <> []. Proof. discriminate. Qed.
